@@ -123,16 +123,23 @@ def teardown(ctx):
 
 def _data(rng, n, eqn, model):
     """piecewise-constant / random data with ratios up to 1e3 and Mach (Froude) up to 3, colliding and receding streams"""
-    kind = str(rng.choice(["two-state", "three-state", "random", "collide", "recede"]))
+    kind = str(rng.choice(["two-state", "three-state", "random", "collide", "recede", "at-rest", "column-at-rest"]))
     e = 1.5 if rng.random() < 0.8 else float(rng.choice([3.0, 4.0]))       # "arbitrarily strong jumps": ratios up to 1e3, sometimes 1e6-1e8
     k = 2.0 / (model.gamma - 1.0) if eqn == "euler" else 2.0
     def cs(a, p):
         return np.sqrt(model.gamma * p / a) if eqn == "euler" else np.sqrt(model.g * a)
-    if kind == "random":
+    if kind == "column-at-rest":
+        # dam break / blast: fluid at rest, a column of one or a few cells 10...1e4 times deeper (denser, at higher pressure) than the rest
+        w = int(rng.integers(1, max(2, n // 4 + 1))); i0 = int(rng.integers(0, n))
+        col = np.isin(np.arange(n), np.arange(i0, i0 + w) % n)
+        a0, p0 = 10 ** rng.uniform(-1, 1), 10 ** rng.uniform(-1, 1)
+        a = np.where(col, a0 * 10 ** rng.uniform(1, 4), a0); p = np.where(col, p0 * 10 ** rng.uniform(1, 4), p0)
+        m = np.zeros(n)
+    elif kind == "random":
         a = 10 ** rng.uniform(-e, e, n); p = 10 ** rng.uniform(-e, e, n)
         m = rng.uniform(-3, 3, n) * (rng.random() < 0.5) + rng.uniform(-0.5, 0.5, n)
     else:
-        nz = 2 if kind in ("two-state", "collide", "recede") else 3
+        nz = 2 if kind in ("two-state", "collide", "recede", "at-rest") else 3
         cuts = np.sort(rng.choice(np.arange(1, n), size=min(nz - 1, n - 1), replace=False)) if n > 1 else []
         zone = np.searchsorted(cuts, np.arange(n), side="right")
         av = 10 ** rng.uniform(-e, e, nz); pv = 10 ** rng.uniform(-e, e, nz); mv = rng.uniform(-3, 3, nz)
@@ -141,6 +148,8 @@ def _data(rng, n, eqn, model):
         if kind == "recede":
             mv = np.array([-abs(mv[0]), abs(mv[1])]) * 0.8
         a, p, m = av[zone], pv[zone], mv[zone]
+        if kind == "at-rest":
+            m = 0.0 * m
     if eqn != "euler":
         p = a
     c = cs(a, p)
